@@ -36,6 +36,7 @@ type monitors struct {
 	lockedBefore map[int]sdk.Int
 	spentBefore  map[int]sdk.Int
 	digestBefore string
+	strBefore    *strSnap
 }
 
 func newMonitors(h *history) *monitors {
@@ -94,7 +95,37 @@ func (m *monitors) afterBegin() {
 	m.invariants("BeginBlock")
 }
 
+type strSnap struct {
+	exists  bool
+	st      strtypes.Stream
+	sendBal sdk.Int
+}
+
+func (m *monitors) snapStream(sn, rc sdk.AccAddress) strSnap {
+	c := m.h.c
+	st, ok := c.app.StreamKeeper.GetStream(c.ctx(), rc, sn)
+	ss := strSnap{exists: ok, st: st, sendBal: sdk.ZeroInt()}
+	if ok {
+		ss.sendBal = c.app.BankKeeper.GetBalance(c.ctx(), sn, st.Deposit.Denom).Amount
+	}
+	return ss
+}
+
 func (m *monitors) beforeTx(g genTx) {
+	m.strBefore = nil
+	if len(g.msgs) == 1 {
+		switch t := g.msgs[0].m.(type) {
+		case *strtypes.MsgClaimStream:
+			ss := m.snapStream(sdk.MustAccAddressFromBech32(t.Sender), sdk.MustAccAddressFromBech32(t.Receiver))
+			m.strBefore = &ss
+		case *strtypes.MsgCancelStream:
+			ss := m.snapStream(sdk.MustAccAddressFromBech32(t.Sender), sdk.MustAccAddressFromBech32(t.Receiver))
+			m.strBefore = &ss
+		case *strtypes.MsgTopUpDeposit:
+			ss := m.snapStream(sdk.MustAccAddressFromBech32(t.Sender), sdk.MustAccAddressFromBech32(t.Receiver))
+			m.strBefore = &ss
+		}
+	}
 	m.supplyBefore = m.supplies()
 	c := m.h.c
 	ctx := c.ctx()
@@ -114,6 +145,64 @@ func (m *monitors) afterTx(g genTx, res txResult, cls int, check bool) {
 	for _, d := range denoms {
 		if !now[d].Equal(m.supplyBefore[d]) {
 			m.fail("C02", 0, fmt.Sprintf("a transaction changed the supply of %s from %s to %s", d, m.supplyBefore[d], now[d]))
+		}
+	}
+	// C11 / C12 on single-message stream transactions whose ante stage cannot fail
+	if m.strBefore != nil && m.strBefore.exists && g.sigOK && g.spec.granter == nil && g.spec.fee.AmountOf("nund").LT(sdk.NewInt(1000)) {
+		sb := m.strBefore
+		st := sb.st
+		now := m.h.c.now
+		switch t := g.msgs[0].m.(type) {
+		case *strtypes.MsgClaimStream:
+			if st.Deposit.Amount.IsPositive() {
+				if cls != 0 {
+					m.fail("C12", 0, fmt.Sprintf("claim on a funded stream (%s, rate %d) failed: %s", st.Deposit, st.FlowRate, res.Log))
+				} else {
+					after, _ := m.h.c.app.StreamKeeper.GetStream(m.h.c.ctx(), sdk.MustAccAddressFromBech32(t.Receiver), sdk.MustAccAddressFromBech32(t.Sender))
+					paid := st.Deposit.Amount.Sub(after.Deposit.Amount)
+					want := st.Deposit.Amount
+					if now.Before(st.DepositZeroTime) {
+						el := new(big.Int).Sub(timeNs(now), timeNs(st.LastOutflowTime))
+						el.Div(el, big.NewInt(1_000_000_000))
+						w := sdk.NewIntFromBigInt(el.Mul(el, big.NewInt(st.FlowRate)))
+						if w.LT(want) {
+							want = w
+						}
+						if !after.Deposit.Amount.IsPositive() {
+							m.fail("C11", 0, fmt.Sprintf("claim at %s before the zero time %s emptied the stream", now, st.DepositZeroTime))
+						}
+					}
+					if !paid.Equal(want) {
+						m.fail("C11", 0, fmt.Sprintf("claim released %s, expected %s (deposit %s rate %d last %s zero %s now %s)", paid, want, st.Deposit, st.FlowRate, st.LastOutflowTime, st.DepositZeroTime, now))
+					}
+					m.h.flags["claims_checked"]++
+				}
+			}
+		case *strtypes.MsgCancelStream:
+			if cls != 0 {
+				m.fail("C12", 0, fmt.Sprintf("cancel of stream (%s, rate %d) by its sender failed: %s", st.Deposit, st.FlowRate, res.Log))
+			} else {
+				m.h.flags["cancels_checked"]++
+			}
+		case *strtypes.MsgTopUpDeposit:
+			if t.Deposit.Denom == st.Deposit.Denom && t.Deposit.Amount.IsPositive() && t.Deposit.Amount.LTE(sb.sendBal) && t.Sender != t.Receiver {
+				ext := new(big.Int).Div(t.Deposit.Amount.BigInt(), big.NewInt(st.FlowRate))
+				baseT := st.DepositZeroTime
+				if !st.DepositZeroTime.After(now) {
+					baseT = now
+				}
+				limit := new(big.Int).Sub(big.NewInt(253402300799), big.NewInt(baseT.Unix()))
+				representable := ext.Cmp(limit) <= 0
+				if cls != 0 {
+					class := 0
+					if !representable {
+						class = 1 // listed: the new deposit-zero time is not representable
+					}
+					m.fail("C12", class, fmt.Sprintf("affordable top-up of %s on stream (%s, rate %d, zero time %s) failed: %s", t.Deposit, st.Deposit, st.FlowRate, st.DepositZeroTime, res.Log))
+				} else {
+					m.h.flags["topups_checked"]++
+				}
+			}
 		}
 	}
 	// C05: locked eFUND moves only for the fee payer of a registry transaction, by min(fee, locked)
@@ -206,6 +295,16 @@ func (m *monitors) invariants(where string) {
 			m.fail("C10", 0, fmt.Sprintf("after %s: deposits of %s sum to %s but the escrow holds none", where, d, v))
 		}
 	}
+	// C11: every stream can sustain its rate from the last release to the advertised zero time
+	c.app.StreamKeeper.IterateAllStreams(ctx, func(rc, sn sdk.AccAddress, st strtypes.Stream) bool {
+		lhs := new(big.Int).Mul(big.NewInt(st.FlowRate), new(big.Int).Sub(timeNs(st.DepositZeroTime), timeNs(st.LastOutflowTime)))
+		rhs := new(big.Int).Mul(st.Deposit.Amount.BigInt(), big.NewInt(1_000_000_000))
+		emptyExpired := st.Deposit.Amount.IsZero() && !st.DepositZeroTime.After(c.now)
+		if lhs.Cmp(rhs) > 0 && !emptyExpired {
+			m.fail("C11", 0, fmt.Sprintf("after %s: stream %s->%s cannot sustain its rate: deposit %s rate %d last outflow %s zero time %s", where, sn, rc, st.Deposit, st.FlowRate, st.LastOutflowTime, st.DepositZeroTime))
+		}
+		return false
+	})
 	// C04: enterprise books
 	ek := c.app.EnterpriseKeeper
 	tl := ek.GetTotalLockedUnd(ctx)
